@@ -1,9 +1,10 @@
 (* C18 — CalTRACK hourly: each hour belongs to its own month; bin features sum to T.
-   Statements only; proofs are in Proofs/CalTrackProofs.v; the model is Model/CalTrack.v over the tables of
+   Statements only; proofs are in Proofs/CalTrackTableProofs.v (tables, finite) and Proofs/CalTrackProofs.v (bins, occupancy,
+   hour of week; unbounded); the model is Model/CalTrack.v over the tables of
    Generated/CalTrackTables.v, which are regenerated from /repo on every run, so the finite theorems below
    are re-established against what the source says now. *)
 From Coq Require Import ZArith QArith Qminmax List Bool String PrimFloat.
-From V Require Import Generated.CalTrackTables Model.CalTrack Proofs.CalTrackProofs.
+From V Require Import Generated.CalTrackTables Model.CalTrack Proofs.CalTrackProofs Proofs.CalTrackTableProofs.
 Import ListNotations.
 Local Open Scope string_scope.
 
